@@ -6,6 +6,7 @@ import Rpki.Model.CmsEnc
 import Rpki.Model.IdEnc
 import Rpki.Model.SigMsgEnc
 import Rpki.Model.CsrEnc
+import Rpki.Model.RtaEnc
 import Rpki.Model.Manifest
 import Rpki.Model.Crl
 import Rpki.Model.Roa
@@ -233,6 +234,7 @@ def handle (toks : List String) (impl : String) : Verdict :=
           else if kind = "idcert" then Driver.CertShow.idcLine b
           else if kind = "sigmsg" then Driver.CertShow.smsgLine b
           else if kind = "csr" then Driver.CertShow.csrLine "csr" b
+          else if kind = "rta" then Driver.CertShow.rtaLine b
           else Driver.CertShow.cmsLine kind b
         -- a certificate the library built (or any canonical one): writing the decoded fields again with the model of
         -- `TbsCert::encode_ref` must give the to-be-signed octets the library wrote
@@ -273,6 +275,17 @@ def handle (toks : List String) (impl : String) : Verdict :=
                   else none
                 | _, _ => some "a built request without both URIs"
               | none => none
+            | none => none
+          else if kind = "rta" then
+            -- `ResourceTaggedAttestation::encode_ref` (Model/RtaEnc.lean): the content octets of the object
+            match Rpki.RtaDer.decodeRta b with
+            | some r =>
+              if Rpki.RtaEnc.encodeAttestation r.att ≠ r.content then
+                some "RtaEnc.encodeAttestation of the decoded attestation differs from the content octets"
+              else if Rpki.RtaEnc.encodeRta r.content (r.certs.map fun d => Rpki.CertEnc.encodeCert d d.signature)
+                  (r.crls.map fun d => Rpki.CrlEnc.encodeCrl d d.signature) r.signers ≠ b then
+                some "RtaEnc.encodeRta of the decoded parts differs from the object's octets"
+              else none
             | none => none
           else if kind = "idcert" then
             -- `IdCert::encode_ref` (Model/IdEnc.lean)
